@@ -329,6 +329,20 @@ fn main() {
     let count: u64 = arg(&a, "count", 100);
     let skip: u64 = arg(&a, "skip", 0);
     let maxops: u64 = arg(&a, "maxops", 1400);
+    if a.contains_key("probe-ids") {
+        // the id an arena hands out for its index-th element, around the limit of the 32-bit id types: it must be the
+        // index itself, or the conversion must refuse (panic) -- never another element's id
+        let mut probes = vec![];
+        for kind in 0u8..5 {
+            for index in [0usize, 1, 127, 128, u32::MAX as usize - 1, u32::MAX as usize, 1usize << 32, (1usize << 32) + 1,
+                          (1usize << 32) + 128, 1usize << 40, usize::MAX] {
+                let r = std::panic::catch_unwind(|| resolvo::verif::pool_id_for_index(kind, index));
+                probes.push(json!({"kind": kind, "index": index.to_string(), "id": r.ok()}));
+            }
+        }
+        println!("{}", json!({"probe_ids": probes}));
+        return;
+    }
     if let Some(path) = a.get("replay") {
         let v: Value = serde_json::from_str(&std::fs::read_to_string(path).unwrap()).unwrap();
         let c = if v.get("replay").is_some() { v["replay"]["case"].clone() } else if v.get("case").is_some() { v["case"].clone() } else { v };
